@@ -16,13 +16,20 @@
          (written by msg_ser; read and discarded by msg_deser).
 
   Things the code does that are easy to overlook and are mirrored here:
-    * `stream_deserialize` does NOT pass `protover` on to `msg_deser`, and no `msg_deser` uses it;
     * `msg_deser` reads from `BytesIO(payload)`; payload bytes left over are ignored;
     * an unknown command prints a line and returns `None` (outcome `ok none`), the frame consumed;
     * the command is the part of the 12-byte field before the first NUL; what follows is ignored;
     * `msg_version.msg_deser` reads `addrFrom …` only from nVersion 106, the height from 209, `fRelay`
-      from 70001 (else `True`), and maps 10300 to 300; `msg_ser` writes under the same conditions (D20);
-    * `CAddress.stream_deserialize` builds `cls()` whose protover is PROTO_VERSION.
+      from 70001 (else `True`); `msg_ser` writes under the same conditions (D20).
+  Two defects of the shipped code are KNOWN findings, not repaired in /repo; the model is nevertheless
+  written for the property-conforming behaviour:
+    D24  `msg_version.msg_deser` reads nVersion 10300 as 300 (Bitcoin Core's receive-side quirk); the
+         model keeps 10300;
+    D25  `stream_deserialize(f, protover)` does not pass `protover` on and `CAddress.stream_deserialize`
+         builds `cls()` (PROTO_VERSION), so the time gate of an address entry is dead on the read side and a
+         frame built from `CAddress(protover < 31402)` objects cannot be read back; in the model the
+         protocol version `pv` given to `streamDeserialize` governs the address entries and is what the
+         parsed addresses carry.
   `socket.inet_pton / inet_ntop` are modelled, not verified: the model carries the 16 packed bytes
   (contract: `inet_pton(f, inet_ntop(f, b)) = b`, validated by the correspondence run).
   Mathlib-free (linked into btcmodel).
@@ -54,13 +61,15 @@ def serAddr (withoutTime : Bool) (a : NetAddr) : Res Bytes := do
   let p ← packBE2 a.port
   pure (t ++ s ++ a.ip ++ p)
 
-/-- `CAddress.stream_deserialize(f, without_time)`; `c = cls()` has protover PROTO_VERSION, nTime 0 -/
-def deAddr (withoutTime : Bool) : Parser NetAddr := fun s => do
-  let (t, r) ← if PROTO_VERSION ≥ CADDR_TIME_VERSION && !withoutTime then readU 4 s else pure (0, s)
+/-- `CAddress.stream_deserialize(f, without_time)` (D25 repaired): the address object belongs to the
+    protocol version `pv` the caller of `stream_deserialize(f, protover=pv)` negotiated — the shipped
+    code builds `cls()`, i.e. always PROTO_VERSION, so its time gate can never be false -/
+def deAddr (pv : Nat) (withoutTime : Bool) : Parser NetAddr := fun s => do
+  let (t, r) ← if pv ≥ CADDR_TIME_VERSION && !withoutTime then readU 4 s else pure (0, s)
   let (sv, r) ← readU 8 r
   let (ip, r) ← serRead 16 r
   let (pb, r) ← serRead 2 r
-  pure ({ protover := PROTO_VERSION, nTime := t, nServices := sv, ip := ip, port := beNat pb }, r)
+  pure ({ protover := pv, nTime := t, nServices := sv, ip := ip, port := beNat pb }, r)
 
 /-- `CInv.stream_serialize`: the hash is written as it is (no length check) -/
 def serInv (i : Inv) : Res Bytes := do
@@ -169,15 +178,14 @@ def msgSer : Msg → Res Bytes
 
 /-! ### messages.py: msg_deser -/
 
-def deVersion : Parser Msg := fun s => do
+def deVersion (pv : Nat) : Parser Msg := fun s => do
   let (ver, r) ← readI 4 s
-  let ver : Int := if ver = 10300 then 300 else ver
   let (sv, r) ← readU 8 r
   let (t, r) ← readI 8 r
-  let (to, r) ← deAddr true r
+  let (to, r) ← deAddr pv true r
   let ((from?, nonce?, sub?, height?), r) ←
     (if ver ≥ 106 then do
-      let (fr, r) ← deAddr true r
+      let (fr, r) ← deAddr pv true r
       let (n, r) ← readU 8 r
       let (sub, r) ← deBytes r
       if ver ≥ 209 then do
@@ -273,10 +281,10 @@ def command : Msg → Bytes
   | .mempool => cmd_mempool
 
 /-- `messagemap`: command → `msg_deser` of its class -/
-def msgDeser (command : Bytes) : Option (Parser Msg) :=
-  if command = cmd_version then some deVersion
+def msgDeser (pv : Nat) (command : Bytes) : Option (Parser Msg) :=
+  if command = cmd_version then some (deVersion pv)
   else if command = cmd_verack then some (fun s => pure (.verack, s))
-  else if command = cmd_addr then some (mapP Msg.addr (deVector (deAddr false)))
+  else if command = cmd_addr then some (mapP Msg.addr (deVector (deAddr pv false)))
   else if command = cmd_alert then some deAlert
   else if command = cmd_inv then some (mapP Msg.inv (deVector deInv))
   else if command = cmd_getdata then some (mapP Msg.getdata (deVector deInv))
@@ -320,7 +328,7 @@ def declaredLen (s : Bytes) : Nat := leNat ((s.drop 16).take 4)
 
 /-- `MsgSerializable.stream_deserialize(f)`: outcome (`none` = the `return None` of an unknown
     command) and the stream that remains -/
-def streamDeserialize (magic : Bytes) (s : Bytes) : Res (Option Msg) × Bytes :=
+def streamDeserialize (magic : Bytes) (pv : Nat) (s : Bytes) : Res (Option Msg) × Bytes :=
   match readPos 24 s with
   | (.error e, r) => (.error e, r)
   | (.ok recvbuf, r) =>
@@ -334,7 +342,7 @@ def streamDeserialize (magic : Bytes) (s : Bytes) : Res (Option Msg) × Bytes :=
       | (.ok msg, r') =>
         if cks ≠ checksum msg then (.error .valueerr, r')
         else
-          match msgDeser command with
+          match msgDeser pv command with
           | some p =>
               (match p msg with
                | .ok (m, _) => (.ok (some m), r')
@@ -349,39 +357,39 @@ def frameAccepted (magic s : Bytes) : Bool :=
     decide ((s.drop 20).take 4 = checksum ((s.drop 24).take (declaredLen s)))
 
 /-- `MsgSerializable.from_bytes(b)`: whatever follows the first frame is ignored -/
-def fromBytes (magic : Bytes) (b : Bytes) : Res (Option Msg) := (streamDeserialize magic b).1
+def fromBytes (magic : Bytes) (pv : Nat) (b : Bytes) : Res (Option Msg) := (streamDeserialize magic pv b).1
 
 /-- reading a stream until it is exhausted (`while f.tell() < len(data)`): the messages returned
     in order, and the error that stopped the loop, if any.  Each successful call consumes at least
     the 24 header bytes, so `fuel = s.length` suffices. -/
-def parseAllAux (magic : Bytes) : Nat → Bytes → List (Option Msg) × Option Exc
+def parseAllAux (magic : Bytes) (pv : Nat) : Nat → Bytes → List (Option Msg) × Option Exc
   | 0, _ => ([], none)
   | fuel + 1, s =>
     if s.isEmpty then ([], none)
     else
-      match streamDeserialize magic s with
+      match streamDeserialize magic pv s with
       | (.ok m, r) =>
-          let (ms, e) := parseAllAux magic fuel r
+          let (ms, e) := parseAllAux magic pv fuel r
           (m :: ms, e)
       | (.error e, _) => ([], some e)
 
-def parseAll (magic : Bytes) (s : Bytes) : List (Option Msg) × Option Exc :=
-  parseAllAux magic s.length s
+def parseAll (magic : Bytes) (pv : Nat) (s : Bytes) : List (Option Msg) × Option Exc :=
+  parseAllAux magic pv s.length s
 
 /-- the same loop recording the stream position: every message with the stream that remains after it
     (`f.tell()` = bytes written − bytes remaining), and the error with what remains after the failing call -/
-def parseTraceAux (magic : Bytes) : Nat → Bytes → List (Option Msg × Bytes) × Option (Exc × Bytes)
+def parseTraceAux (magic : Bytes) (pv : Nat) : Nat → Bytes → List (Option Msg × Bytes) × Option (Exc × Bytes)
   | 0, _ => ([], none)
   | fuel + 1, s =>
     if s.isEmpty then ([], none)
     else
-      match streamDeserialize magic s with
+      match streamDeserialize magic pv s with
       | (.ok m, r) =>
-          let (ms, e) := parseTraceAux magic fuel r
+          let (ms, e) := parseTraceAux magic pv fuel r
           ((m, r) :: ms, e)
       | (.error e, r) => ([], some (e, r))
 
-def parseTrace (magic : Bytes) (s : Bytes) : List (Option Msg × Bytes) × Option (Exc × Bytes) :=
-  parseTraceAux magic s.length s
+def parseTrace (magic : Bytes) (pv : Nat) (s : Bytes) : List (Option Msg × Bytes) × Option (Exc × Bytes) :=
+  parseTraceAux magic pv s.length s
 
 end BtcVerif.Model.Msg
